@@ -197,8 +197,8 @@ func prepareReassembly(bs []Bundle) error {
 			return fmt.Errorf("next fragment starts at offset %d, gap from %d to %d", fragOff, lastIndex, fragOff)
 		} else if payloadBlock, err := b.PayloadBlock(); err != nil {
 			return err
-		} else {
-			lastIndex = fragOff + uint64(len(payloadBlock.Value.(*PayloadBlock).Data()))
+		} else if fragEnd := fragOff + uint64(len(payloadBlock.Value.(*PayloadBlock).Data())); fragEnd > lastIndex {
+			lastIndex = fragEnd
 		}
 	}
 
@@ -231,6 +231,11 @@ func mergeFragmentPayload(bs []Bundle) (data []byte, err error) {
 			return
 		}
 		fragPayloadData = fragPayloadBlock.Value.(*PayloadBlock).Data()
+
+		if fragStartIndex+len(fragPayloadData) <= lastIndex {
+			// This fragment is completely covered by the previous ones.
+			continue
+		}
 
 		data = append(data, fragPayloadData[lastIndex-fragStartIndex:]...)
 		lastIndex = fragStartIndex + len(fragPayloadData)
